@@ -130,6 +130,9 @@ def _headers_digest(root, gendir):
 
 def _ovx_digest():
     if not os.path.exists(OVX):
+        # a fresh restore: build the extractor now (what setup_cmd does)
+        subprocess.run(["sh", os.path.join(VERIF, "setup.sh")], stdout=subprocess.DEVNULL, stderr=subprocess.DEVNULL)
+    if not os.path.exists(OVX):
         raise AnalysisBroken("extractor %s not built (run ./setup.sh)" % OVX)
     return hashlib.sha256(_read(OVX)).hexdigest()
 
